@@ -1077,6 +1077,7 @@ func c12R7(p *engine.Prog, r *engine.Report) {
 	c12R8(p, r)
 	c12R10(p, r)
 	c12R11(p, r)
+	c12R12(p, r)
 }
 
 func itoa(i int64) string { return strconv.FormatInt(i, 10) }
@@ -1245,4 +1246,29 @@ func c12R11(p *engine.Prog, r *engine.Report) {
 		}
 	}
 	r.Floor("C12-R11", 3, "fork resolver, full sync, fast sync")
+}
+
+// ---------------------------------------------------------------- R12
+// getGasLimit runs for every contract transaction of a block under validation (no recover on that
+// path): its decimal division is reached only behind the zero test of its own divisor (the cost of
+// one gas unit is zero as long as the state has no fee rate, e.g. right after a generated genesis).
+func c12R12(p *engine.Prog, r *engine.Report) {
+	f := mustFunc(p, r, "blockchain", "Blockchain.getGasLimit")
+	if f == nil {
+		return
+	}
+	r.Fn(engine.FuncName(f))
+	nDiv := 0
+	for _, c := range engine.Calls(f) {
+		if o := engine.CalleeObj(c.Common()); o != nil && o.Pkg() != nil && strings.HasSuffix(o.Pkg().Path(), "shopspring/decimal") && (o.Name() == "Div" || o.Name() == "DivRound") {
+			nDiv++
+		}
+	}
+	bad := unguardedDecimalDivisions(f)
+	for _, d := range bad {
+		r.Bad("C12-R12", uniq(r, "getGasLimit|the division is behind the zero test of its own divisor"), p.InstrPos(d.Call), "decimal division by "+d.Of+" is reachable without a test that this very value is not zero (a test of another value does not help): with no fee rate in the state the divisor is 0, decimal.Div panics inside block validation — a block from the network crashes the node instead of getting a verdict")
+	}
+	if len(bad) == 0 {
+		r.OK("C12-R12", "getGasLimit|the division is behind the zero test of its own divisor", p.Pos(f.Pos()), itoa(int64(nDiv))+" division(s) guarded (integer arithmetic would not be constrained)")
+	}
 }
